@@ -49,7 +49,7 @@ func (c08BlockFilter) ShouldSkip(index.FilterOp) (bool, error) { return c08SkipB
 // range intersects the window and which the filter does not rule out - each once, in order. In
 // particular a block ruled out by the filter hides only itself, not the later blocks of the
 // same series.
-// bound: 1..3 blocks (thorough 1..5) over series {1,2,3} in writing order (series non-decreasing, per series disjoint increasing time ranges), primary index blocks cut after any block, wanted series = any subset of {1,2,3,4}, arbitrary window, per block: skipped by the filter or not, filter present or not
+// bound: 1..3 blocks (thorough 1..5) over series {1,2,3} in writing order (series non-decreasing, per series disjoint increasing time ranges), primary index blocks cut after any block, wanted series = any subset of {1,2,3} (thorough {1,2,3,4}), arbitrary window, per block: skipped by the filter or not, filter present or not
 func VerifH_C08_StreamPartIteratorYieldsExactlyTheMatchingBlocks() {
 	maxN := 3
 	if zzverif.Thorough() {
@@ -102,7 +102,11 @@ func VerifH_C08_StreamPartIteratorYieldsExactlyTheMatchingBlocks() {
 	}
 	var sids []common.SeriesID
 	wanted := map[common.SeriesID]bool{}
-	for s := common.SeriesID(1); s <= 4; s++ {
+	maxWanted := common.SeriesID(3)
+	if zzverif.Thorough() {
+		maxWanted = 4
+	}
+	for s := common.SeriesID(1); s <= maxWanted; s++ {
 		if zzverif.Bool("series wanted") {
 			sids = append(sids, s)
 			wanted[s] = true
